@@ -53,8 +53,9 @@ ALT_TESTS = {
 
 
 class Walker:
-    def __init__(self, src, inline):
+    def __init__(self, src, inline, broadcast=False):
         self.src = src
+        self.broadcast = broadcast    # which value of `broadcast` the main path follows
         self.inline = inline          # name -> FunctionDef to inline (e.g. self._transact)
         self.sites = []               # (op, main?, region) region in {"before","loop","after"}
         self.region = "before"
@@ -74,7 +75,10 @@ class Walker:
             if name in self.inline:
                 self.stmts(self.inline[name].body, main)
             elif name in OPS:
-                self.emit(OPS[name], main)
+                op = OPS[name]
+                if op == "Send" and self.broadcast:
+                    op = "SendB"
+                self.emit(op, main)
             elif name in PURE:
                 continue
             else:
@@ -101,6 +105,9 @@ class Walker:
             self.stmt(st, m)
             if self.in_loop_body is body and any(isinstance(x, ast.Break) for x in ast.walk(st)):
                 seen_break = True     # after the if/elif ... break chain: the retry tail
+            if self.broadcast and isinstance(st, ast.If) and ast.unparse(st.test) == "broadcast" \
+                    and st.body and isinstance(st.body[-1], ast.Return):
+                seen_break = True     # broadcast path: `if broadcast: ...; return` — the rest is not reached
 
     in_loop_body = None
 
@@ -132,7 +139,12 @@ class Walker:
             return
         if isinstance(st, ast.If):
             self.expr(st.test, main)
-            alt = ast.unparse(st.test) in ALT_TESTS
+            test = ast.unparse(st.test)
+            if test == "broadcast" and self.broadcast:
+                self.stmts(st.body, main)
+                self.stmts(st.orelse, False)
+                return
+            alt = test in ALT_TESTS
             self.stmts(st.body, main and not alt)
             self.stmts(st.orelse, main)
             return
@@ -250,6 +262,12 @@ def generate():
     w.stmts(ex.body, True)
     if w.loops != 1:
         tx.fail(ex, "expected exactly one retry loop")
+    wb = Walker(tx, {"self._transact": tr}, broadcast=True)
+    wb.stmts(ex.body, True)
+    # the broadcast decision itself: broadcast = self.client.broadcast_enable and request.unit_id == 0
+    bdef = [n for n in ast.walk(ex) if isinstance(n, ast.Assign) and ast.unparse(n.targets[0]) == "broadcast"]
+    if [ast.unparse(n.value) for n in bdef] != ["self.client.broadcast_enable and request.unit_id == 0", "False"]:
+        tx.fail(ex, "unrecognised definition of `broadcast`")
     # _send must be the transport write
     sb = [s for s in tx.func(M, "_send").body if not core.is_docstring(s)]
     if len(sb) != 1 or ast.unparse(sb[0]) != "return self.client.framer.sendPacket(packet)":
@@ -301,6 +319,11 @@ def generate():
         "Definition sk_before_loop : list lop := %s." % part("before"),
         "Definition sk_loop : list lop := %s." % part("loop"),
         "Definition sk_after_loop : list lop := %s." % part("after"),
+        "",
+        "(* the path of a broadcast request (client.broadcast_enable and unit_id == 0) *)",
+        "Definition broadcast_skeleton : list lop := %s." % coq_list([op for op, main, _ in wb.sites if main]),
+        "Definition broadcast_allsites : list lop := %s." % coq_list([op for op, _, _ in wb.sites]),
+        "Definition broadcast_call_skeleton : list lop := client_prefix ++ broadcast_skeleton.",
         "",
         "Definition execute_allsites : list lop := map fst execute_sites.",
         "Definition execute_mainpath : list lop := map fst (filter snd execute_sites).",
